@@ -66,7 +66,11 @@ def typewalk(obj, path, problems, leaves):
         typewalk(obj.scalars, path + ".scalars", problems, leaves)
         typewalk(obj.listing, path + ".listing", problems, leaves)
         return
-    problems.append("%s: %s (%r)" % (path, t.__module__ + "." + t.__name__, obj))
+    try:
+        shown = repr(obj)
+    except Exception as exc:  # noqa: BLE001 - lazily decoded objects may not even print
+        shown = "<repr raised %r>" % (exc,)
+    problems.append("%s: %s (%s)" % (path, t.__module__ + "." + t.__name__, shown[:120]))
 
 
 def py_of_raw(op, raw):
@@ -275,7 +279,56 @@ def run_case(R, level, op, db, args):
         R.mon["repeated_after_abandoned_ok"] += 1
 
 
+ODD = (
+    bytes([0x40, 17]) + b"\x01" * 17, bytes([0x40, 3]) + b"\x01\x02\x03", b"\x40\x00", bytes([0x40, 16]) + b"\x00" * 15 + b"\x01",
+    b"\x43\x08" + b"\xff" * 8, b"\x43\x00", b"\x41\x09" + b"\x01" * 9, b"\x42\x00", b"\x46\x0a" + b"\x7f" * 10,
+    b"\x06\x03\x2b\x06\x81", b"\x06\x00", b"\x06\x01\x80", b"\x02\x00", b"\x05\x01\x00", b"\x44\x00", b"\x80\x01\x00", b"\x82\x02\x00\x00",
+)
+
+
+def odd_values(R):
+    """Values whose content does not suit their type (a sloppy agent): the wrapper may
+    refuse them, but whatever it RETURNS consists of built-in types only - in strict and
+    in lenient mode, through every operation."""
+    base = (1, 3, 6, 1, 4, 1, 9, 5)
+    for j, raw in enumerate(ODD):
+        db = {base + (1, 0): ("int", 1), base + (2, 0): ("rawtlv", raw), base + (3, 0): ("str", b"after")}
+        for level in ("v2c", "v3-sha1-priv"):
+            w = World(level, db)
+            w.prime()
+            p = w.py
+            calls = (
+                ("walk-strict", lambda: drive_agen(p.walk(oid_s(base)), limit=20)),
+                ("walk-warn", lambda: drive_agen(p.walk(oid_s(base), errors=rig.lenient()), limit=20)),
+                ("multiwalk", lambda: drive_agen(p.multiwalk([oid_s(base)]), limit=20)),
+                ("bulkwalk", lambda: drive_agen(p.bulkwalk([oid_s(base)], bulk_size=3), limit=20)),
+                ("get", lambda: drive(p.get(oid_s(base + (2, 0))))),
+                ("getnext", lambda: drive(p.getnext(oid_s(base + (1, 0))))),
+                ("multiget", lambda: drive(p.multiget([oid_s(base + (1, 0)), oid_s(base + (2, 0))]))),
+                ("bulkget", lambda: drive(p.bulkget([oid_s(base + (1, 0))], [oid_s(base + (1,))], max_list_size=2))),
+            )
+            for name, fn in calls:
+                w.seam.reset(budget=30)
+                try:
+                    res = rig.outcome(fn)
+                except rig.BudgetExceeded:
+                    continue
+                R.case(("c15-odd", j, level, name, res[0]), res[0] == "ok")
+                R.mon["odd_value_calls"] += 1
+                if res[0] != "ok":
+                    R.mon["odd_value_refused"] += 1
+                    continue
+                problems, leaves = [], []
+                typewalk(res[1], name, problems, leaves)
+                if problems:
+                    R.violation({"level": level, "op": "odd:" + name, "odd": j, "db": None, "args": None}, "a value with unsuitable content (%s) came back as a non-built-in object: %s" % (raw.hex(), "; ".join(problems)[:300]), None)
+                    return
+                R.mon["odd_value_results_builtin"] += 1
+
+
 def run(R):
+    if R.shard == 1 % R.nshards:
+        odd_values(R)
     n = N_CASES[R.tier]
     levels = rig.LEVEL_CYCLE_ALL
     for i in range(n):
@@ -298,6 +351,9 @@ def run(R):
 
 
 def replay(R, v):
+    if str(v["case"].get("op", "")).startswith("odd:"):
+        odd_values(R)
+        return
     from .walkcommon import dec_db
 
     c = v["case"]
